@@ -341,3 +341,40 @@ def c12_1(cx):
     cx.flow(itf, itf.origin_local(0), [r"^core::num::<impl u16>::to_le_bytes\(\$1\.0\)\[const:0\]$"], [r"\[const:1\]"], "iteration() reads the low byte")
     cc = cx.fn(r"^cycle::IterationStamp::cancellation_count$")
     cx.flow(cc, cc.origin_local(0), [r"^core::num::<impl u16>::to_le_bytes\(\$1\.0\)\[const:1\]$"], [r"\[const:0\]"], "cancellation_count() reads the high byte")
+
+
+@ob("C18.5", ["C18", "C12", "C16"], "a cycle head that is RUNNING ON ANOTHER THREAD is mid-iteration: treating it like a head of our own cycle (comparing iteration counts only) accepts a provisional value of an unfinished iteration as the result", kind="TABLE+ONLYIF (claim result -> head verdict)")
+def c18_5(cx):
+    """TryClaimCycleHeadsIter::next: peek_claim(head, Reentrancy::Deny) decides: Cycle -> TryClaimHeadsResult::Cycle{memo_iteration: the head memo's iteration, head_iteration: the iteration recorded in this memo's head list, verified_at} (Poisoned in this revision/cancellation epoch -> propagate the panic, otherwise Available); Running -> never Cycle (the caller must not reuse); Claimed -> Available. validate_same_iteration returns true only if every head answered Cycle with equal verified_at and iteration."""
+    n = cx.fn(r"^<function::memo::TryClaimCycleHeadsIter<'_> as std::iter::Iterator>::next$")
+    pk = cx.one_call(n, r"SyncTable::peek_claim$", "peek_claim in TryClaimCycleHeadsIter::next")
+    cx.flow(n, cx.arg(pk, 3), [r"^Reentrancy::Deny\{\}$"], [r"Reentrancy::Allow"], "heads are peeked without re-entrancy", pk)
+    claim = r"SyncTable::peek_claim\("
+    cyc = cx.sites(n.aggregates(r"TryClaimHeadsResult$", "Cycle"), 1, "TryClaimHeadsResult::Cycle aggregate")
+    for s in cyc:
+        cx.only_if(n, s, VariantIn(claim, {"Cycle"}, desc="peek_claim(head) == Cycle (the head is blocked on this thread)"), "a head counts as part of our own cycle only if claiming it would form a cycle")
+        o = n._origin_def(s, "assign", s.node(), 0, None, ())
+        cx.flow(n, o, [r"head_iteration: cycle::AtomicIterationStamp::load\(.*CycleHeadsIterator.*next\(.*\)\?\.iteration\)"], [], "head_iteration is the iteration this memo recorded for the head", s)
+        cx.flow(n, o, [r"memo_iteration: .*provisional_status\("], [r"memo_iteration: cycle::AtomicIterationStamp::load"], "memo_iteration is the head memo's current iteration", s)
+    av = n.aggregates(r"TryClaimHeadsResult$", "Available")
+    cx.sites(av, 1, "Available")
+    for s in av:
+        cx.only_if_any(n, s, [VariantIn(claim, {"Claimed"}), VariantIn(claim, {"Cycle"})], "Available only for a claimable head (or a stale poisoned one)")
+    v = cx.fn(r"^function::maybe_changed_after::validate_same_iteration$")
+    it = r"TryClaimCycleHeadsIter as std::iter::Iterator>::next\("
+    for site, kind, node in value_defs(v, 0):
+        o = v._origin_def(site, kind, node, 0, None, ())
+        if o == "const:1":
+            cx.only_if(v, site, VariantIn(it, {"None"}, desc="all heads examined"), "validate_same_iteration: true only after every head was examined")
+    loops = cx.for_loops(v)
+    cx.require(len(loops) == 1, "validate_same_iteration: one loop over the heads")
+    nx, some_bb, none_bb = loops[0]
+    eng = OnlyIf(cx.facts, v)
+    item = it + r".*\)@Some\.0"
+    lits = [VariantIn(item + r"$", {"Cycle"}, desc="head verdict is Cycle"),
+            Cmp(item + r"@Cycle\.verified_at$", "==", r"^\$4$", desc="head.verified_at == memo.verified_at"),
+            Cmp(item + r"@Cycle\.head_iteration$", "==", item + r"@Cycle\.memo_iteration$", desc="recorded iteration == head's current iteration")]
+    for l in lits:
+        e = eng.establishing_edges(l)
+        reach = v.reachable(some_bb, "normal", cut_edges=e, cut_blocks={nx.bb})
+        cx.check(nx.bb not in reach, "validate_same_iteration moves on to the next head only if %r" % l, nx, key="same-iter-needs %r" % l)
